@@ -433,7 +433,13 @@ func (w *World) Preamble(body string) string {
 	}
 	// string equality
 	if used("str_eq") {
-	b.WriteString("(define-fun str_eq ((a Str) (b Str)) Bool (and (= (st_len a) (st_len b)) (forall ((i (_ BitVec 64))) (=> (bvult i (st_len a)) (= (select (st_arr a) (bvadd (st_off a) i)) (select (st_arr b) (bvadd (st_off b) i)))))))\n")
+		// opaque, revealed by pattern: atoms str_eq(a, b) stay visible to congruence reasoning and the
+		// byte-wise meaning is available wherever such an atom occurs
+		b.WriteString("(declare-fun str_eq (Str Str) Bool)\n")
+		b.WriteString("(assert (forall ((a Str) (b Str)) (! (= (str_eq a b) (and (= (st_len a) (st_len b)) (forall ((i (_ BitVec 64))) (=> (bvult i (st_len a)) (= (select (st_arr a) (bvadd (st_off a) i)) (select (st_arr b) (bvadd (st_off b) i))))))) :pattern ((str_eq a b)))))\n")
+		b.WriteString("(assert (forall ((a Str)) (! (str_eq a a) :pattern ((str_eq a a)))))\n")
+		b.WriteString("(assert (forall ((a Str) (b Str)) (! (= (str_eq a b) (str_eq b a)) :pattern ((str_eq a b)))))\n")
+		b.WriteString("(assert (forall ((a Str) (b Str) (c Str)) (! (=> (and (str_eq a b) (str_eq b c)) (str_eq a c)) :pattern ((str_eq a b) (str_eq b c)))))\n")
 	}
 	for i, d := range w.extraDecls {
 		if strings.HasPrefix(w.extraKeys[i], "est_") {
